@@ -36,21 +36,21 @@ type tObs struct {
 	Blocked     string              `json:"blocked,omitempty"`
 	Incon       string              `json:"inconclusive,omitempty"`
 	POrder      string              `json:"porder"`
-	Status      map[string]int      `json:"status"`                 // actor -> HTTP status of its request (-1: transport error, 0: not an HTTP operation)
-	KnownAtPut  []string            `json:"known_at_put"`           // channels whose existence had been acknowledged to a client when PUT's put segment was released
-	PausedAtPut bool                `json:"pause_acked_at_put"`     // the topic's pause had been acknowledged (and no unpause requested) at that moment
-	AckedAtExit []string            `json:"acked_at_exit"`          // messages acknowledged when the shutdown was requested
-	KnownAtExit []string            `json:"known_at_exit"`          // channels acknowledged by then
+	Status      map[string]int      `json:"status"`             // actor -> HTTP status of its request (-1: transport error, 0: not an HTTP operation)
+	KnownAtPut  []string            `json:"known_at_put"`       // channels whose existence had been acknowledged to a client when PUT's put segment was released
+	PausedAtPut bool                `json:"pause_acked_at_put"` // the topic's pause had been acknowledged (and no unpause requested) at that moment
+	AckedAtExit []string            `json:"acked_at_exit"`      // messages acknowledged when the shutdown was requested
+	KnownAtExit []string            `json:"known_at_exit"`      // channels acknowledged by then
 	TopicExists bool                `json:"topic_exists"`
 	Paused      bool                `json:"paused"`
-	TopicDepth  int64               `json:"topic_depth"`            // first settled reading
+	TopicDepth  int64               `json:"topic_depth"` // first settled reading
 	MsgCount    int64               `json:"message_count"`
 	Channels    []string            `json:"channels"`
 	PausedPhase map[string][]string `json:"paused_phase,omitempty"` // channel -> bodies it delivered while the topic was still paused
 	Final       map[string][]string `json:"final"`                  // channel -> every body it delivered (after unpausing)
 	Restarted   bool                `json:"restarted"`
-	Back        map[string][]string `json:"back,omitempty"`         // after graceful shutdown + restart
-	Unexpected  string              `json:"unexpected,omitempty"`   // the pump moved when NsqdTopic says it rests (or the reverse)
+	Back        map[string][]string `json:"back,omitempty"`       // after graceful shutdown + restart
+	Unexpected  string              `json:"unexpected,omitempty"` // the pump moved when NsqdTopic says it rests (or the reverse)
 	Events      int                 `json:"events"`
 }
 
